@@ -12,6 +12,7 @@ from ..val import clone, strings_of
 
 ID = 'C08'
 SIZES = {'quick': 14000, 'thorough': 1000000}
+REQUIRED_EVENTS = ['lib_runs_judged', 'cli_runs_judged', 'fault_runs_judged']
 RULE = ('kinds: struct = structure-aware hostile documents (every directive at every position with arguments of every type, then tree-level '
         'mutation), 1-3 layers x 1-2 documents, evaluated in-process through to Output in a random format; bytes = arbitrary byte strings and '
         'bit-flipped / spliced / truncated seeds (generated documents, tests/* inputs, FuzzParser corpus entries) offered as .json and .toml files, '
